@@ -46,7 +46,9 @@ CLAIMED = {
              "save #1), every other write-mode mutation is a counted-array resize or an entry of a triaged one-symbol-wide table, and "
              "FinalizeData's call tree assigns only derived data. Found and fixed this way: FO76 shader type drift, OB tangent flag "
              "cleared by saving; recorded as known findings: match groups cleared after writing, hasVertWeights clamp. R2.5: no public const query of NifFile "
-             "changes a member that a Put writes (known finding: GetShapePartitions converts strip partitions / drops unmapped triangles in place).",
+             "changes a member that a Put writes (known finding: GetShapePartitions converts strip partitions / drops unmapped triangles in place). "
+             "Known findings also: writing compacts boneRefs / childRefs in the live model (positional / consulted slot counts), and Save "
+             "rebuilds the string table before it prunes blocks (R2.8).",
         note="value changes hidden inside an accepted derivation (a wrong dataSize formula) and idempotence of FinalizeData on "
              "values are not decided; canonical member paths are assumed not to alias"),
     "C03": dict(
